@@ -207,4 +207,26 @@ def run_case(rng, tier, case):
         case.check('unit.value_equal', abs(v1 - v2) <= (solve.TOL_VAL_MIP if mip else solve.TOL_VAL) * (1 + abs(v1)), value=v1, value_reexpressed=v2, units=[u, u2])
     elif isinstance(r1.res, str) != isinstance(r2.res, str) and 'inaccurate' not in (r1.res, r2.res):
         case.check('unit.value_equal', False, res=str(r1.res)[:20], res2=str(r2.res)[:20], units=[u, u2])
+    if not spec['grid']['freq'].endswith('d') and rng.random() < 0.3:
+        # the same pair through the split set-up (interval grids are built by EAO itself): interval by interval the same problems, same value
+        sz = gen.pick(rng, ['6h', '12h', 'd', '8h'])
+        q1 = flow.run_portfolio(spec, split=sz, do_extract=False)
+        if q1.ok:
+            case.feature('split_pair')
+            q2 = flow.run_portfolio(sp2, split=sz, do_extract=False)
+            if not q2.ok:
+                case.check('unit.split_setup_still_works', False, units=[u, u2], interval=sz, error=flow.describe_error(q2))
+            else:
+                ds = None
+                if len(q1.op.ops) != len(q2.op.ops):
+                    ds = 'number of intervals %d vs %d' % (len(q1.op.ops), len(q2.op.ops))
+                else:
+                    for k_, (o1, o2) in enumerate(zip(q1.op.ops, q2.op.ops)):
+                        dk = problem_diff(Snap(o1), Snap(o2), rtol=1e-9, compare_mapping=False)
+                        if dk:
+                            ds = 'interval %d: %s' % (k_, dk); break
+                case.check('unit.split_problem_equal', ds is None, units=[u, u2], interval=sz, diff=ds)
+                if q1.solved and q2.solved:
+                    w1, w2 = float(q1.res.value), float(q2.res.value)
+                    case.check('unit.split_value_equal', abs(w1 - w2) <= (solve.TOL_VAL_MIP if mip else solve.TOL_VAL) * (1 + abs(w1)), value=w1, value_reexpressed=w2, units=[u, u2], interval=sz)
     case.nontrivial = bool(uneq or has_dur or True)
